@@ -152,6 +152,19 @@ def scen_real_pass(rng, which):
             'external': ext}
 
 
+def scen_helper_hangs(rng):
+    """a helper program that is still running when its candidate is cancelled: the symbol listing (`unifdef -s`) of the
+    first candidate hangs, the second candidate is interesting and wins, the first one is cancelled — its helper must
+    not survive the pass run"""
+    s = scen_real_pass(rng, 'unifdef')
+    s['name'] = 'helper-hangs-while-another-candidate-wins'
+    s['tree']['a.c']['text'] = 'int keep1;\n#ifdef FOO\nint a;\n#else\nint b;\n#endif\n#ifdef BAR\nint y;\n#endif\n'
+    s['env'] = {'STANDIN_LIST_HANG_ONCE': 25}
+    s['N'] = 2
+    s['timeout'] = 10
+    return s
+
+
 def scen_order(rng, N):
     """an earlier candidate whose test is slow but interesting, a later one that is fast and interesting: the earlier must win"""
     return {'name': f'order-N{N}', 'tree': {'a.c': {'text': '// WASSLOW\nSLOWLINE\nB\nkeep1\n'}}, 'test_cases': ['a.c'],
